@@ -1294,6 +1294,9 @@ func (self *LockManager) ProcessRecoverLockData(lock *Lock) {
 			data := make([]byte, dataLen+4)
 			data[0], data[1], data[2], data[3] = byte(dataLen), byte(dataLen>>8), byte(dataLen>>16), byte(dataLen>>24)
 			data[4], data[5] = protocol.LOCK_DATA_COMMAND_TYPE_SET, currentData.data[5]
+			if valueOffset > 6 {
+				copy(data[6:], currentData.data[6:valueOffset])
+			}
 			copy(data[valueOffset:], shiftData)
 			copy(data[valueOffset+len(shiftData):], currentData.data[valueOffset:])
 			self.currentData = NewLockManagerData(data, protocol.LOCK_DATA_COMMAND_TYPE_SHIFT, false)
